@@ -192,6 +192,21 @@ fn decoder_script(args: &[String]) {
     }
 }
 
+/// storage-script <ops...>: a:<f32> (append) | f:<f32> (fetch_or_append); values may be NaN.
+/// prints per op the returned token index, then all stored values.
+fn storage_script(args: &[String]) {
+    let mut st: rspirv::sr::storage::Storage<f32> = rspirv::sr::storage::Storage::new();
+    let mut toks = vec![];
+    for op in args {
+        let v: f32 = op[2..].parse().expect("f32");
+        let t = if op.starts_with("a:") { st.append(v) } else { st.fetch_or_append(v) };
+        println!("{} -> {}", op, t.index());
+        toks.push(t);
+    }
+    let vals: Vec<String> = toks.iter().map(|t| format!("{:?}", st[*t])).collect();
+    println!("lookups {}", vals.join(" "));
+}
+
 fn main() {
     let args: Vec<String> = env::args().collect();
     match args.get(1).map(|s| s.as_str()) {
@@ -200,6 +215,7 @@ fn main() {
         Some("enum-scan") => enum_scan(&args[2..]),
         Some("load-bytes") => load_bytes_cmd(&args[2..]),
         Some("decoder-script") => decoder_script(&args[2..]),
+        Some("storage-script") => storage_script(&args[2..]),
         _ => {
             eprintln!("usage: vreplay <subcommand> ...");
             std::process::exit(64);
